@@ -150,7 +150,7 @@ func compareWithFrame(frame []byte, want model.Packet) (sig, msg string) {
 func TestC03(t *testing.T) {
 	r := vf.NewRec("C03")
 	defer r.Finish(t)
-	guard.StartWatchdog(*vf.Out, "C03")
+	guard.StartWatchdog(*vf.Out, vf.Label("C03"))
 
 	for _, rf := range r.LoadReplays(t) {
 		var c caseC03
